@@ -105,7 +105,13 @@ IDX = st.lists(st.integers(0, 63), min_size=1, max_size=48)
 @st.composite
 def st_map(draw):
     k = draw(st.sampled_from(["list", "list", "list", "list", "perm", "repeat",
-                              "stride", "cross", "identity", "one"]))
+                              "stride", "cross", "identity", "one", "samelen",
+                              "samelen"]))
+    if k == "samelen":
+        # as long as the origin, same first and last entry as the identity, but not
+        # the identity (monotone with repetitions, or a permutation of the interior)
+        return {"k": "samelen", "seed": draw(st.integers(0, 999)),
+                "mono": draw(st.booleans())}
     if k == "list":
         return {"k": "list", "idx": draw(IDX),
                 "sort": draw(st.sampled_from([False, False, True])),
@@ -411,6 +417,15 @@ def build_map(ms, nsrc, c=10):
                            3 * c, 3 * c - 1) if i < nsrc] or [0]
     elif k == "identity":
         idx = list(range(nsrc))
+    elif k == "samelen":
+        r = np.random.default_rng(ms["seed"])
+        if nsrc < 4:
+            idx = list(range(nsrc))
+        elif ms["mono"]:
+            inner = np.sort(r.integers(0, nsrc, size=nsrc - 2)).tolist()
+            idx = [0] + inner + [nsrc - 1]
+        else:
+            idx = [0] + (1 + r.permutation(nsrc - 2)).tolist() + [nsrc - 1]
     else:
         raise ValueError(k)
     return np.array(idx, dtype=np.uint64)
